@@ -555,6 +555,7 @@ Definition run_burst_spec (p : proto) (x : xval) : xval :=
 
 Definition protocols_table : list (bytes * (xval -> xval)) :=
   [ (B "proto.pair", run_pair);
+    (B "proto.server", run_pair);      (* the same exchanges through complete servers (RunConfig::execute) *)
     (B "proto.pair_spec", run_pair_spec);
     (B "proto.answered", run_answered_today);
     (B "proto.answered_spec", run_answered_spec);
